@@ -3,7 +3,7 @@
    one line per operation. *)
 From NV Require Import Base.Util Base.Sexp Base.IntTy Base.FloatBits Base.Float Base.Expr
      Macro.Surface Macro.Ast Macro.Parse Macro.Validate
-     Sem.Guard Sem.Value Sem.Eval Sem.Conv Spec.GuardSpec Run.Lib Run.Decode.
+     Sem.Guard Sem.Value Sem.Eval Sem.Conv Sem.Bytes Sem.ArbInt Sem.ArbStr Sem.ArbFloat Sem.Order Spec.GuardSpec Run.Lib Run.Decode.
 Local Open Scope string_scope.
 
 (* placeholders until the Unicode tables are wired in (Run/Unicode*.v) *)
@@ -47,6 +47,37 @@ Definition run_op (d : decl) (op : sexp) : string :=
   | L [A "de"; v] =>
       match dec_opt_value v with Some i => pr_outcome (op_deserialize lib d i) | None => "bad_value" end
   | L [A "default"] => pr_outcome (op_default lib d)
+  | L (A "arb" :: bs) =>
+      match omap as_Z bs with
+      | Some bs =>
+          if has_trait TrArbitrary (d_traits d) then
+            pr_outcome (match d_family d with
+                        | FInt _ _ => arb_int lib d bs
+                        | FStr => arb_str lib d bs
+                        | FFloat _ => arb_float lib d bs
+                        | FAny _ => ONotAvail
+                        end)
+          else "na"
+      | None => "bad_value" end
+  | L [A "cmp2"; v1; v2] =>
+      match dec_value v1, dec_value v2 with
+      | Some a, Some b =>
+          match construct lib d a, construct lib d b with
+          | OOk x, OOk y =>
+              let fam := d_family d in
+              "eq=" ++ string_of_bool (value_eq fam x y) ++
+              " pcmp=" ++ match value_pcmp fam x y with
+                          | Some Lt => "L" | Some Eq => "E" | Some Gt => "G" | None => "N" end ++
+              " cmp=" ++ match value_cmp fam x y with
+                         | CmpOk Lt => "L" | CmpOk Eq => "E" | CmpOk Gt => "G" | CmpPanic => "P" end
+          | _, _ => "rejected"
+          end
+      | _, _ => "bad_value" end
+  | L [A "arb_range"] =>
+      match arb_boundary d with
+      | Some (lo, hi) => "range " ++ string_of_Z lo ++ " " ++ string_of_Z hi
+      | None => "range none"
+      end
   | L [A "spec"; v] =>
       match dec_value v with
       | Some v => pr_outcome (spec_construct lib d v) ++ " " ++
